@@ -17,6 +17,7 @@ def values():
     return {
         "d1": {"n": n1, "tag": t1, "time": 111, "declare_size": True},
         "d2": {"n": n2, "tag": t2, "time": 2 ** 62, "metadata": {"m": 2}},   # explicit time far in the future
+        "d3": {"n": n1, "tag": (t1 + 1) % 256, "time": 112, "declare_size": True},   # record of the same byte length as d1's
     }
 
 
@@ -37,6 +38,7 @@ class C09Spec(seqx.Spec):
             for v in ("d1", "d2"):
                 for side in self.sides:
                     out.append({"t": "W", "key": k, "val": v, "side": side, "how": "session"})
+        out.append({"t": "W", "key": self.keys[0], "val": "d3", "side": self.sides[0], "how": "session"})
         for side in self.sides:
             for k in self.keys:
                 out.append({"t": "R", "key": k, "side": side})
